@@ -20,7 +20,7 @@ SeqOfSet(S) == SetToSeq(S)
 UnObs(q) ==
   [ center |-> Center(q), wc |-> WithCenter(Center(q), SizeOf(q)), br |-> BottomRight(q),
     probes |-> SeqOfSet({ <<p[1], p[2], IF ContainsT(q, p) THEN 1 ELSE 0>> : p \in PointsOf(Grow(q, 1)) }),
-    pts_logged |-> 1, points |-> PointsSeq(q),
+    pts_logged |-> 1, points |-> PointsSeq(q), proto |-> SeqProtoOf(PointsSeq(q), 2),
     rows |-> Rows(q), cols |-> Columns(q),
     anchors |-> [a \in 1..9 |-> AnchorPoint(q, a)],
     resized |-> SeqOfSet({ <<s[1], s[2], a, Resized(q, s, a)>> : s \in Sizes, a \in 1..9 }),
